@@ -1197,16 +1197,16 @@ child space binds to no value in the parent's namespace before (old name) and af
 language is the NAME of its space (`_space.name`, `fullname`); the coverage demanded of the clearing is therefore
 "every cells of every renamed space is cleared as an object, the parent's cells are notified" (`renameCovered`).
 
-Side condition `Edit.slotsFixed` (`Edit.SlotsOK`, inside `Edit.AdmissibleR`): no DECLARED attribute slot lies in a
-space whose path the rename changes (a source spelled `S.x` follows the object in the code, the path in the model). -/
+A DECLARED attribute slot keeps its spelling through the rename (`Edit.Tabs.spell`): a formula elsewhere that
+spells `S.x` reaches the space through an object-valued reference, which follows the OBJECT; `_space.x` follows
+the space.  So there is no side condition on slots. -/
 
 /-- **An accepted rename changes no definition the executor sees**: formula of every cells (source resolved in
 the namespace of its space), flags, value of every reference, observers – equal as `Env`s, for every identity. -/
 theorem rename_changes_no_definition (P : Edit.Params) (t : Edit.Tabs) (st st' : SM.St) (h : SM.Inv st)
-    (p : SM.Path) (new : String) (hop : st.renameSpace P.kw p new = .ok st')
-    (hs : Edit.slotsFixed t p new = true) :
+    (p : SM.Path) (new : String) (hop : st.renameSpace P.kw p new = .ok st') :
     Edit.envOf P (t.mapPaths (Edit.renameMap p new)) st' = Edit.envOf P t st :=
-  Edit.envOf_renameSpace P t st st' h p new hop hs
+  Edit.envOf_renameSpace P t st st' h p new hop
 
 /-- **Coverage for the rename**: the clearing the code performs clears every cells of the renamed space and of
 every space below it as an object and notifies the cells of the parent (no hypothesis); and a clearing that does
@@ -1228,9 +1228,9 @@ theorem covered_rename_leaves_nothing_of_the_renamed_spaces (env : Env) (lt : No
 /-- **Every operation of the machine with renames keeps the invariant** – for the definitions of the NEW
 structure under the NEW paths. -/
 theorem machineR_keeps_ci (P : Edit.Params) (lt : Node → Node → Prop) (ho : StrictOrder lt) (w : Edit.W)
-    (op : Edit.OpR) (hw : WF (w.env P) lt) (hs : Edit.SlotsOK w op) (h : Edit.CIG P lt w) :
+    (op : Edit.OpR) (hw : WF (w.env P) lt) (h : Edit.CIG P lt w) :
     Edit.CIG P lt (Edit.stepR P w op) :=
-  Edit.stepR_cig ho w op hw h hs
+  Edit.stepR_cig ho w op hw h
 
 theorem machineR_reachable_ci (P : Edit.Params) (lt : Node → Node → Prop) (ho : StrictOrder lt)
     (slots : List (SM.Path × String)) (ops : List Edit.OpR) (hadm : Edit.AdmissibleR P lt (Edit.W.init slots) ops) :
@@ -1282,6 +1282,28 @@ theorem histories_admissibleR_from_sources (P : Edit.Params) (lt : Node → Node
     (hcalls : ∀ v key, Edit.NsNoCalls (P.srcOf v key)) (ops : List Edit.OpR) :
     Edit.AdmissibleR P lt (Edit.W.init []) ops :=
   Edit.admissibleR_of_sources P lt ho hnc hsc hcalls ops _ (Edit.cig_init P lt []) (Edit.wf_init P lt []) rfl
+
+/-- the same for sources that read references through attribute paths only (declared slots – in renamed spaces
+too), call nothing and catch nothing -/
+theorem histories_admissibleR_from_attr_sources (P : Edit.Params) (lt : Node → Node → Prop)
+    (hnc : ∀ v key, Edit.NsNoCatch (P.srcOf v key)) (hao : ∀ v key, Edit.NsAttrOnly (P.srcOf v key))
+    (hcalls : ∀ v key, Edit.NsNoCalls (P.srcOf v key)) (slots : List (SM.Path × String)) (ops : List Edit.OpR) :
+    Edit.AdmissibleR P lt (Edit.W.init slots) ops :=
+  Edit.admissibleR_of_attr_sources P lt hnc hao hcalls ops _
+
+/-! A slot in a renamed space (`Edit.sOps`; every cells is `lambda: S.x`, slot `(S, x)`): `m.x = 1`; `T.c() = 1`;
+`S.rename("Z")`: `T.c` keeps 1 (nothing it depends on changed), the slot is now `(Z, x)`, still spelled `S.x`;
+`Z.x = 5` clears the reader through the same slot identity; `T.c() = 5`. -/
+example : Edit.CIG Edit.gP idLt (Edit.runR Edit.gP (Edit.W.init Edit.gSlots) Edit.sOps) :=
+  (machineR_reachable_ci Edit.gP idLt idLt_strict Edit.gSlots Edit.sOps Edit.sOps_admissible).1
+
+example :
+    (Edit.runR Edit.gP (Edit.W.init Edit.gSlots) (Edit.sOps.take 6)).ex.data = [((0, []), .int 1)] ∧
+    (Edit.runR Edit.gP (Edit.W.init Edit.gSlots) (Edit.sOps.take 6)).tabs.slots = [(["Z"], "x")] ∧
+    (Edit.runR Edit.gP (Edit.W.init Edit.gSlots) (Edit.sOps.take 6)).tabs.spell = [(["Z"], ["S"])] ∧
+    (Edit.runR Edit.gP (Edit.W.init Edit.gSlots) (Edit.sOps.take 8)).ex.data = [] ∧
+    Edit.answer Edit.gP (Edit.runR Edit.gP (Edit.W.init Edit.gSlots) Edit.sOps) ["T"] "c" [] = some (.ok (.int 5)) := by
+  decide
 
 /-! Non-vacuity (`Edit.rOps`, sources `y * 2`): `A` (`f`, `y = 1`) with child `A.Ch` (`g`, `y = 2`), `T(A)`;
 `A.f() = 2`, `A.Ch.g() = 4`, `T.f() = 2`, `A.f[1] = 7` (an input); `A.rename("Z")` is covered, discards everything
